@@ -374,7 +374,20 @@ fn alternation_leg(acc: &mut Acc) -> (u64, u64) {
             }
         }
     }
-    let results: Vec<(usize, Exit)> = cells.par_iter().enumerate().map(|(i, (c, o))| (i, run_child_limited(c, o, ALT_DEPTH, "main", ALT_SECONDS))).collect();
+    // a run that hits the limit is repeated once with four times the limit before it counts (a
+    // starved machine must not look like a run that cannot complete; doubling work per level still
+    // cannot finish 2^32 visits)
+    let results: Vec<(usize, Exit)> = cells
+        .par_iter()
+        .enumerate()
+        .map(|(i, (c, o))| {
+            let r = match run_child_limited(c, o, ALT_DEPTH, "main", ALT_SECONDS) {
+                Exit::Hung(_) => run_child_limited(c, o, ALT_DEPTH, "main", 4 * ALT_SECONDS),
+                other => other,
+            };
+            (i, r)
+        })
+        .collect();
     let n = cells.len() as u64;
     for (i, r) in results {
         let (c, o) = &cells[i];
